@@ -20,7 +20,7 @@ impl Property for Prop {
         "C16"
     }
     fn rule(&self) -> &'static str {
-        "histories: a receiver state (15 recipes (and, one history in 64, a 256-slot memory with an unfinished train on every fragment id) incl. unfinished trains on every slot, full / empty free list, remembered label, aliasing ids) is driven through a seeded prefix of 1..200 hostile buffers (random bytes, structured headers, mutated valid packets, wrong CRC / length / frag id, unfinished trains; one buffer in five continues with another hostile packet or random bytes after the packet), storage being provisioned at random points (one buffer, or until the memory reports that it is full); then: reset label memory; provision one buffer through the decapsulator or directly through its public memory field (Ok or 'free list full' both fine); probe 1 = valid complete packet with an explicit label, half of them with one optional extension header (exactly the probe's extensions must be reported; delivered buffer given back); probe 2 = valid fragmented PDU of 2..5 fragments on a seeded fragment id (half of them ids with an unfinished train or aliasing one; all 256 reachable) and label kind, built by the real encapsulator (or hand-made when the sender is unusable or would need more than 8 fragments), reported without extensions; one history in three ends with the SHADOW of probe 2's first fragment (same id, total length, type, label and size, other payload bytes); one receiver in three is constructed with max_pdu_frag = 8. A decap call of the prefix that panics is a violation (the sequence of calls cannot be completed: the caller is left without a decapsulator); non-trivial = conclusive with a prefix of at least 1 packet that was not all padding; fingerprint = hash(state, prefix bytes, probe parameters)."
+        "histories: a receiver state (15 recipes (and, one history in 64, a 256-slot memory with an unfinished train on every fragment id) incl. unfinished trains on every slot, full / empty free list, remembered label, aliasing ids) is driven through a seeded prefix of 1..200 hostile buffers (random bytes, structured headers, mutated valid packets, wrong CRC / length / frag id, unfinished trains; one buffer in five continues with another hostile packet or random bytes after the packet), storage being provisioned at random points (one buffer, or until the memory reports that it is full); then: reset label memory; provision one buffer through the decapsulator or directly through its public memory field (Ok or 'free list full' both fine); probe 1 = valid complete packet with an explicit label, half of them with one optional extension header (exactly the probe's extensions must be reported; delivered buffer given back); probe 2 = valid fragmented PDU of 2..5 fragments on a seeded fragment id (half of them ids with an unfinished train or aliasing one; all 256 reachable) and label kind, built by the real encapsulator (or hand-made when the sender is unusable or would need more than 8 fragments), one in three with an optional header extension that must be reported with every fragment and with the PDU; one history in three ends with the SHADOW of probe 2's first fragment (same id, total length, type, label and size, other payload bytes); one receiver in three is constructed with max_pdu_frag = 8. A decap call of the prefix that panics is a violation (the sequence of calls cannot be completed: the caller is left without a decapsulator); non-trivial = conclusive with a prefix of at least 1 packet that was not all padding; fingerprint = hash(state, prefix bytes, probe parameters)."
     }
     fn gens(&self, cx: &Cx) -> Vec<Gen> {
         vec![Gen { name: "histories", count: cx.n(30_000, 2_000_000), exhaustive: false }]
@@ -85,7 +85,11 @@ impl Property for Prop {
         let meta = EncapMetadata::new(0x86DD, label2);
         let first_buf = 13 + cuts[0].min(plen2.saturating_sub(1));
         let mut r2 = prng.clone();
-        let built = build_train(&mut enc, &pdu2, frag_id, meta, None, |i| if i == 0 { first_buf } else { 8 + r2.below(plen2 + 8) }, 64);
+        // one probe in three carries an optional header extension (reported with every fragment and with the PDU)
+        let probe2_ext: Option<Vec<dvb_gse_rust::header_extension::Extension>> = if prng.chance(1, 3) { dvb_gse_rust::header_extension::Extension::new(0x0200 | prng.byte() as u16, &[0xE1, 0xE2]).ok().map(|e| vec![e]) } else { None };
+        let probe2_ext_ids: Vec<u16> = probe2_ext.as_ref().map(|v| v.iter().map(|e| e.id()).collect()).unwrap_or_default();
+        let first_buf = first_buf + if probe2_ext.is_some() { 4 } else { 0 };
+        let built = build_train(&mut enc, &pdu2, frag_id, meta, probe2_ext.clone(), |i| if i == 0 { first_buf } else { 8 + r2.below(plen2 + 8) }, 64);
         let pkts: Vec<Vec<u8>> = match built {
             Ok(t) if t.complete && t.pkts.len() >= 2 && t.pkts.len() <= 8 => {
                 rep.count("c16.probe2-from-encapsulator");
@@ -96,6 +100,8 @@ impl Property for Prop {
                 mk_train(&fr, lt_of_label(&label2), &label_bytes(&label2), frag_id, 0x86DD, &pdu2, &cuts)
             }
         };
+        // (the hand-made train has no extension)
+        let probe2_ext_ids: Vec<u16> = if pkts.len() >= 2 && crate::wire::parse(&pkts[0], &crate::wire::MandTable::none()).map(|p| p.exts.is_empty()).unwrap_or(true) { vec![] } else { probe2_ext_ids };
         let nmax = if rng.chance(1, 10) { 200 } else { 40 };
         let n = 1 + rng.below(nmax);
         let mut h = 0u64;
@@ -233,8 +239,8 @@ impl Property for Prop {
             let r = dec_guard(&mut d, p);
             let last = i + 1 == np;
             let ok = match &r {
-                Ok(Ok((DecapStatus::FragmentedPkt(m), c))) if !last => *c == p.len() && m.label() == label2 && m.extensions().is_empty(),
-                Ok(Ok((DecapStatus::CompletedPkt(b, m), c))) if last => *c == p.len() && m.pdu_len() == plen2 && b[..plen2] == pdu2[..] && m.label() == label2 && m.protocol_type() == 0x86DD && m.extensions().is_empty(),
+                Ok(Ok((DecapStatus::FragmentedPkt(m), c))) if !last => *c == p.len() && m.label() == label2 && m.extensions().iter().map(|e| e.id()).collect::<Vec<_>>() == probe2_ext_ids,
+                Ok(Ok((DecapStatus::CompletedPkt(b, m), c))) if last => *c == p.len() && m.pdu_len() == plen2 && b[..plen2] == pdu2[..] && m.label() == label2 && m.protocol_type() == 0x86DD && m.extensions().iter().map(|e| e.id()).collect::<Vec<_>>() == probe2_ext_ids,
                 _ => false,
             };
             if !ok {
